@@ -9,11 +9,17 @@
   * `Progress maxLen A name n`  :=  ∀ i ≤ n, |splitCookieName name i| + 1 + A < maxLen
       (every iteration of the Go loop can store ≥ 1 value byte; if it fails at the first part
       the real loop panics (`split_panics`) or makes no progress (`split_noProgress`)).
-  * `NoTrunc name n`            :=  ∀ i ≤ n, |name| + 1 + #digits(i) ≤ 256
-      (the 256-byte truncation of `splitCookieName` is not triggered; needed wherever the
-      regular expression `^name(_\d+)?$` must recognise the parts — see the findings at the end).
-  Both follow from simple numeric conditions (`progress_of_simple`, `progress_of_attr`,
-  `noTrunc_of_simple`).
+  * `NoCollision name`          :=  ∀ i, splitCookieName name i ≠ name
+      (excludes exactly the 256-byte names ending in `_<digits>`, which are their own part `i`:
+      known finding `C10-name256-collision`, witness `finding_name256_collision`; implied by
+      `|name| ≤ 255`, `noCollision_of_length`).
+  * `|name| ≤ 256` (option validation) — for longer names the truncated `name_0` is *shorter*
+    than `name` and a single unrenamed part can result (`finding_single_unrenamed_part`).
+  * `|v| ≤ 2⁶³−1`: part counters fit a Go `int` (`isSessionCookieName` parses them with `Atoi`).
+  `Progress` follows from simple numeric conditions (`progress_of_simple`, `progress_of_attr`).
+  Since the fix "recognise truncated split-cookie names when clearing session cookies" the
+  matcher is `isSessionCookieName` (model `matchesSessionName`), which recognises truncated part
+  names, so the former `NoTrunc` hypothesis is gone.
 -/
 import O2P.Lemmas.CookieJar
 
@@ -39,23 +45,14 @@ theorem progress_of_attr {maxLen A : Nat} {name : Str} {n : Nat}
   have := splitCookieName_length_le_256 (name := name) hd
   omega
 
-theorem noTrunc_of_simple {name : Str} {n : Nat}
-    (h : name.length ≤ 245) (hn : n < 10000000000) : NoTrunc name n := by
-  intro i hi
-  have hd : (natToStr i).length ≤ 10 := natToStr_length_le (by decide) (by omega)
-  omega
-
 instance (maxLen A : Nat) (name : Str) (n : Nat) : Decidable (Progress maxLen A name n) := by
   unfold Progress; infer_instance
-instance (name : Str) (n : Nat) : Decidable (NoTrunc name n) := by
-  unfold NoTrunc; infer_instance
 
 -- non-vacuity: the default configuration (`_oauth2_proxy`, `; Path=/; Max-Age=604800; HttpOnly;
 -- Secure` = 42 bytes; any A ≤ 3974 works) and a tiny configuration used in the witnesses below
 example : Progress 4000 42 "_oauth2_proxy".toList 100000 := progress_of_simple (by decide) (by decide)
-example : NoTrunc "_oauth2_proxy".toList 100000 := noTrunc_of_simple (by decide) (by decide)
+example : NoCollision "_oauth2_proxy".toList := noCollision_of_length (by decide)
 example : Progress 40 0 "s".toList 60 := by decide
-example : NoTrunc "s".toList 60 := by decide
 
 /-! ## 1. `splitCookie` partitions the value -/
 
@@ -219,7 +216,7 @@ theorem split_names_distinct (name : Str) (i j : Nat)
   splitCookieName_inj h
 
 /-- …but a part name can collide with the *base* name: a 256-byte name ending in `_0` is its
-    own part 0 (see `finding_name256_collision`).  Excluded by `|name| ≤ 255`: -/
+    own part 0 (see `finding_name256_collision`).  `NoCollision` holds for `|name| ≤ 255`: -/
 theorem split_name_ne_base {name : Str} (h : name.length ≤ 255) (i : Nat) :
     splitCookieName name i ≠ name :=
   splitCookieName_ne_name h i
@@ -231,11 +228,11 @@ theorem split_name_ne_base {name : Str} (h : name.length ≤ 255) (i : Nat) :
     for every size.  In particular the "single unrenamed part `name_0`" branch of `joinCookies`
     is never reached: a value that does not fit in one cookie named `name` needs ≥ 2 parts
     because `name_0` is not shorter than `name` (for `|name| ≤ 256`). -/
-theorem c10_single {maxLen A : Nat} {name v : Str} (hname : name.length ≤ 255)
-    (hprog : Progress maxLen A name v.length) :
+theorem c10_single {maxLen A : Nat} {name v : Str} (hname : name.length ≤ 256)
+    (hnc : NoCollision name) (hprog : Progress maxLen A name v.length) :
     ∃ cs, save maxLen A name v = .ok cs ∧
       loadCookie (applySetCookies [] cs) name = some (name, v) := by
-  rcases makeSessionCookies_spec (by omega) hprog with ⟨_, hmk⟩ | ⟨_, ps, hmk, hok, h2⟩
+  rcases makeSessionCookies_spec hname hprog with ⟨_, hmk⟩ | ⟨_, ps, hmk, hok, h2⟩
   · exact ⟨_, save_of_ok hmk, by
       apply loadCookie_exact
       simp [applySetCookies, applySetCookie, toSet, jarSet, jarGet]⟩
@@ -258,7 +255,7 @@ theorem c10_single {maxLen A : Nat} {name v : Str} (hname : name.length ≤ 255)
         exact hn i hi rfl
     have := loadCookie_parts (jar := applySetCookies [] (ps.map toSet)) (name := name)
       (vs := ps.map Prod.snd)
-      (hnone name (fun i _ he => splitCookieName_ne_name hname i he.symm))
+      (hnone name (fun i _ he => hnc i he.symm))
       (by intro i hi; simp only [List.length_map] at hi; simpa using hget i hi)
       (by
         simp only [List.length_map]
@@ -287,14 +284,16 @@ private def big (n : Nat) : Str := (List.range n).map (fun i => Char.ofNat (97 +
     * `[save small, save large]`: the stale unsplit cookie wins and the **old** session loads;
     * `[save 4 parts, save 3 parts]`: the stale `_3` part is appended to the new value. -/
 theorem c10_history_current_false :
-    ¬ ∀ (maxLen A : Nat) (name : Str) (ops : List Op),
-        NoTrunc name 0 →
-        (∀ v, Op.save v ∈ ops → NoTrunc name v.length ∧ Progress maxLen A name v.length) →
+    ¬ ∀ (maxLen A : Nat) (name : Str) (ops : List JarOp),
+        name.length ≤ 256 → NoCollision name →
+        (∀ v, JarOp.save v ∈ ops →
+          v.length ≤ 9223372036854775807 ∧ Progress maxLen A name v.length) →
         loadCookie (runCurrent maxLen A name ops []) name = lastSaved name ops := by
   intro h
-  have := h 40 0 "s".toList [.save small, .save (big 60)] (by decide) (by
+  have := h 40 0 "s".toList [.save small, .save (big 60)] (by decide)
+    (noCollision_of_length (by decide)) (by
     intro v hv
-    simp only [List.mem_cons, Op.save.injEq, List.not_mem_nil, or_false] at hv
+    simp only [List.mem_cons, JarOp.save.injEq, List.not_mem_nil, or_false] at hv
     rcases hv with rfl | rfl <;> decide)
   revert this
   decide
@@ -319,13 +318,14 @@ theorem c10_history_current_witness_stale_part :
     jar without session cookies (other cookies may be present), each request presenting the
     whole jar: the next request loads exactly the last saved value, or nothing after a clear /
     initially. -/
-theorem c10_history {maxLen A : Nat} {name : Str} (ops : List Op) (jar0 : Jar)
-    (hname : NoTrunc name 0)
+theorem c10_history {maxLen A : Nat} {name : Str} (ops : List JarOp) (jar0 : Jar)
+    (hname : name.length ≤ 256) (hnc : NoCollision name)
     (hjar0 : ∀ n, matchesSessionName name n = true → jarGet jar0 n = none)
-    (hops : ∀ v, Op.save v ∈ ops → NoTrunc name v.length ∧ Progress maxLen A name v.length) :
+    (hops : ∀ v, JarOp.save v ∈ ops →
+      v.length ≤ 9223372036854775807 ∧ Progress maxLen A name v.length) :
     loadCookie (runFixed maxLen A name ops jar0) name = lastSaved name ops := by
   rcases List.eq_nil_or_concat ops with rfl | ⟨l, b, rfl⟩
-  · exact (Shape.empty hjar0).load hname
+  · exact (Shape.empty hjar0).load hnc
   · rw [List.concat_eq_append] at hops ⊢
     have hrun : runFixed maxLen A name (l ++ [b]) jar0 =
         stepWith (fun v j => saveFixed maxLen A name v j) name (runFixed maxLen A name l jar0) b := by
@@ -333,32 +333,34 @@ theorem c10_history {maxLen A : Nat} {name : Str} (ops : List Op) (jar0 : Jar)
     rw [hrun]
     cases b with
     | clear =>
-      have hl : lastSaved name (l ++ [Op.clear]) = none := by
+      have hl : lastSaved name (l ++ [JarOp.clear]) = none := by
         simp [lastSaved]
       rw [hl]
-      exact (shape_clear name _).load hname
+      exact (shape_clear name _).load hnc
     | save v =>
-      have hl : lastSaved name (l ++ [Op.save v]) = some (name, v) := by
+      have hl : lastSaved name (l ++ [JarOp.save v]) = some (name, v) := by
         simp [lastSaved]
       rw [hl]
-      obtain ⟨hnt, hp⟩ := hops v (by simp)
-      obtain ⟨cs, hcs, hsh⟩ := shape_saveFixed hnt hp (runFixed maxLen A name l jar0)
+      obtain ⟨hlen, hp⟩ := hops v (by simp)
+      obtain ⟨cs, hcs, hsh⟩ := shape_saveFixed hname hlen hp (runFixed maxLen A name l jar0)
       simp only [stepWith, hcs]
-      exact hsh.load hname
+      exact hsh.load hnc
 
 /-- the same with plain numeric hypotheses and an initially empty jar -/
-theorem c10_history_simple {maxLen A : Nat} {name : Str} (ops : List Op)
-    (hname : name.length ≤ 245) (hA : name.length + A + 12 < maxLen)
-    (hlen : ∀ v, Op.save v ∈ ops → v.length < 10000000000) :
+theorem c10_history_simple {maxLen A : Nat} {name : Str} (ops : List JarOp)
+    (hname : name.length ≤ 255) (hA : name.length + A + 12 < maxLen)
+    (hlen : ∀ v, JarOp.save v ∈ ops → v.length < 10000000000) :
     loadCookie (runFixed maxLen A name ops []) name = lastSaved name ops :=
-  c10_history ops [] (noTrunc_of_simple hname (by decide)) (fun _ _ => rfl)
-    (fun v hv => ⟨noTrunc_of_simple hname (hlen v hv), progress_of_simple hA (hlen v hv)⟩)
+  c10_history ops [] (by omega) (noCollision_of_length hname) (fun _ _ => rfl)
+    (fun v hv => ⟨by have := hlen v hv; omega, progress_of_simple hA (hlen v hv)⟩)
 
 /-- after every step of a fixed history the session part of the jar is exactly
     nothing / `{name}` / `{name_0 … name_{k-1}}` (the invariant behind `c10_history`) -/
-theorem c10_history_shape {maxLen A : Nat} {name : Str} (ops : List Op) (jar0 : Jar)
+theorem c10_history_shape {maxLen A : Nat} {name : Str} (ops : List JarOp) (jar0 : Jar)
+    (hname : name.length ≤ 256)
     (hjar0 : ∀ n, matchesSessionName name n = true → jarGet jar0 n = none)
-    (hops : ∀ v, Op.save v ∈ ops → NoTrunc name v.length ∧ Progress maxLen A name v.length) :
+    (hops : ∀ v, JarOp.save v ∈ ops →
+      v.length ≤ 9223372036854775807 ∧ Progress maxLen A name v.length) :
     Shape name (runFixed maxLen A name ops jar0) ((lastSaved name ops).map Prod.snd) := by
   rcases List.eq_nil_or_concat ops with rfl | ⟨l, b, rfl⟩
   · exact Shape.empty hjar0
@@ -369,16 +371,16 @@ theorem c10_history_shape {maxLen A : Nat} {name : Str} (ops : List Op) (jar0 : 
     rw [hrun]
     cases b with
     | clear =>
-      have hl : lastSaved name (l ++ [Op.clear]) = none := by
+      have hl : lastSaved name (l ++ [JarOp.clear]) = none := by
         simp [lastSaved]
       rw [hl]
       exact shape_clear name _
     | save v =>
-      have hl : lastSaved name (l ++ [Op.save v]) = some (name, v) := by
+      have hl : lastSaved name (l ++ [JarOp.save v]) = some (name, v) := by
         simp [lastSaved]
       rw [hl]
-      obtain ⟨hnt, hp⟩ := hops v (by simp)
-      obtain ⟨cs, hcs, hsh⟩ := shape_saveFixed hnt hp (runFixed maxLen A name l jar0)
+      obtain ⟨hlen, hp⟩ := hops v (by simp)
+      obtain ⟨cs, hcs, hsh⟩ := shape_saveFixed hname hlen hp (runFixed maxLen A name l jar0)
       simp only [stepWith, hcs]
       exact hsh
 
@@ -394,9 +396,10 @@ example : loadCookie (runFixed 40 0 "s".toList [.save (big 120), .save small, .c
 
 /-! ## 6. sign-out (cookie store part of C11) -/
 
-/-- the names `^name(_\d+)?$` recognises (for a name without regex metacharacters) -/
+/-- the names `isSessionCookieName` recognises: the base name and every part name (truncated or
+    not) whose counter fits a Go `int` -/
 def IsSessionCookieName (name n : Str) : Prop :=
-  n = name ∨ ∃ ds : Str, ds ≠ [] ∧ ds.all isDigit = true ∧ n = name ++ '_' :: ds
+  n = name ∨ ∃ i : Nat, i ≤ 9223372036854775807 ∧ n = splitCookieName name i
 
 theorem matchesSessionName_spec (name n : Str) :
     matchesSessionName name n = true ↔ IsSessionCookieName name n :=
@@ -404,8 +407,8 @@ theorem matchesSessionName_spec (name n : Str) :
 
 /-- **clear_covers_presented.**  `Clear` writes a deletion (empty value, `Max-Age < 0`, built by
     the same `makeCookie` as `Save`, hence same path/domain) for every presented cookie named
-    `name` or `name_<digits>`, and only for those; after the browser applies them none of these
-    remain and every other cookie is untouched. -/
+    `name` or `splitCookieName name i`, and only for those; after the browser applies them none
+    of these remain and every other cookie is untouched. -/
 theorem clear_covers_presented (name : Str) (presented : Jar) :
     (∀ c, c ∈ clearStore name presented ↔
         ∃ p ∈ presented, IsSessionCookieName name p.1 ∧ c = ⟨p.1, [], true⟩) ∧
@@ -429,33 +432,38 @@ theorem clear_covers_presented (name : Str) (presented : Jar) :
     obtain ⟨p, ⟨_, hpm⟩, rfl⟩ := hm
     exact hn ((matchesSessionName_spec name _).1 hpm)
 
-/-- all parts of a split cookie are covered as long as their names are not truncated -/
-theorem clear_covers_split_parts {name : Str} {i : Nat}
-    (h : name.length + 1 + (natToStr i).length ≤ 256) :
+/-- all parts of a split cookie are covered, for every cookie name (truncated part names
+    included) -/
+theorem clear_covers_split_parts (name : Str) {i : Nat} (h : i ≤ 9223372036854775807) :
     IsSessionCookieName name (splitCookieName name i) :=
-  (matchesSessionName_spec _ _).1 (matchesSessionName_part h)
+  Or.inr ⟨i, h, rfl⟩
 
-/-- after a `Clear` nothing loads, whatever the jar held (current and fixed code alike) -/
-theorem clear_then_load_none {name : Str} (hname : NoTrunc name 0) (jar : Jar) :
+/-- after a `Clear` nothing loads, whatever the jar held and whatever the cookie name -/
+theorem clear_then_load_none (name : Str) (jar : Jar) :
     loadCookie (applySetCookies jar (clearStore name jar)) name = none :=
-  (shape_clear name jar).load hname
+  (shape_clear name jar).load_none
 
-/-! ## 7. Findings outside the hypotheses (long cookie names; option validation allows ≤ 256) -/
+/-! ## 7. Outside the hypotheses (long cookie names; option validation allows ≤ 256) -/
 
 private def longName (n : Nat) : Str := List.replicate n 'n'
 
 set_option maxRecDepth 20000 in
-/-- **Finding (C11).**  For a 255-byte cookie name the parts are named `name[:254]_i`, which
-    `^name(_\d+)?$` does not match: after save-then-clear the parts are still in the jar and the
-    session still loads. -/
-theorem finding_clear_misses_truncated_parts :
+/-- Regression (former finding, repaired by the fix "recognise truncated split-cookie names when
+    clearing session cookies"): for a 255-byte cookie name the parts are named `name[:254]_i`;
+    the old regular-expression matcher recognised none of them, `isSessionCookieName` recognises
+    all, and after save-then-clear nothing loads. -/
+example :
     let name := longName 255
-    let jar := runCurrent 400 0 name [.save (big 300), .clear] []
-    clearStore name (runCurrent 400 0 name [.save (big 300)] []) = [] ∧
-    loadCookie jar name = some (name, big 300) := by decide
+    let jar := runFixed 400 0 name [.save (big 300)] []
+    jar.length = 3 ∧
+    jar.filter (fun p => matchesSessionNameRegex name p.1) = [] ∧
+    (clearStore name jar).length = 3 ∧
+    loadCookie (runFixed 400 0 name [.save (big 300), .clear] []) name = none ∧
+    loadCookie (runFixed 400 0 name [.save (big 300), .save (big 200)] []) name
+      = some (name, big 200) := by decide
 
 set_option maxRecDepth 20000 in
-/-- **Finding (C10).**  A 256-byte cookie name ending in `_0` is its own part 0
+/-- **Known finding `C10-name256-collision`.**  A 256-byte cookie name ending in `_0` is its own part 0
     (`splitCookieName name 0 = name`): `loadCookie` finds the exact name first and returns part 0
     only. -/
 theorem finding_name256_collision :
